@@ -2,7 +2,7 @@
    Only statements, `exact lemma`, Print Assumptions. *)
 From stdpp Require Import gmap.
 From Coq Require Import NArith.
-From DS Require Import Model.ValueMap Proofs.ValueMapProofs.
+From DS Require Import Model.ValueMap Proofs.ValueMapProofs Model.ValueMapConc Proofs.ValueMapConcProofs.
 
 (* For EVERY sequence of Store, Load, LoadOrStore, LoadAndDelete, Delete, Clear, Range and
    Length calls, the results of the transliterated sync.Map clone equal those of an ordinary
@@ -67,3 +67,21 @@ Theorem C12_linearizability_monitor_correct :
     exists l, l ≡ₚ h /\ respects_rt l /\ seq_ok ∅ l.
 Proof. exact linearizable_correct. Qed.
 Print Assumptions C12_linearizability_monitor_correct.
+
+(* ---- concurrency: an INTERLEAVING model of the algorithm as written in valuemap.go (Model/ValueMapConc.v): shared state =
+   read map + amended flag, dirty map, entry cells shared between the two (nil / expunged / value with a pointer tag),
+   misses, mutex holder; one schedule element = one atomic action of the Go code (atomic load of m.read, atomic load /
+   compare-and-swap of an entry pointer with the retry loops of tryStore / delete / tryLoadOrStore, Lock — enabled only when
+   free —, the lock-protected region, Unlock); operations Load, Store, LoadAndDelete, LoadOrStore with fast and slow paths,
+   unexpunge, missLocked with the real promotion test, dirtyLocked with expunging.
+   For EVERY number of threads, every list of operations per thread and EVERY schedule, the history of invocations and
+   responses is linearizable with respect to an ordinary finite map: there are linearization points between each
+   operation's invocation and response such that the map specification, run in that order from the empty map, gives
+   every completed operation exactly the response it returned.  (Range / Length / Clear are not in the concurrent model:
+   they are covered by the sequential theorems above and by the monitor below on recorded histories; atomics are taken
+   to be sequentially consistent.) *)
+Theorem C12_linearizable_all_schedules : forall (threads : list (list cop)) (sched : list nat),
+  ValueMapConc.linearizable (history_of (run_sched (init_conf threads) sched)).
+Proof. exact valuemap_linearizable. Qed.
+
+Print Assumptions C12_linearizable_all_schedules.
